@@ -799,7 +799,9 @@ func (s *scanner) nextItem() bool {
 					if s.curr == '*' {
 						s.nextChar()
 						s.name = "*"
-					} else if isName(s.curr) {
+					} else if isName(s.curr) && unicode.Is(first, s.curr) {
+						// The local part is an NCName: it starts with a name
+						// start character, not with a digit, '-' or '.'.
 						s.name = s.scanName()
 					} else {
 						panic(fmt.Sprintf("%s has an invalid qualified name.", s.text))
